@@ -10,6 +10,10 @@ apply to inherited properties are not looked up at all (excluded by the statemen
 
 Correspondence: the facets (pattern / minLength / maxLength) and occurrence bounds the generator
 writes for every property, against ``Model/Xsd.lean`` fed with the real inferred constraints.
+
+Enumerated part (``c14_models``, run first by ``c13.enumerated_stage``): boundary models whose constraints
+are *designed* (known from the construction of the invariants, so a constraint the inference loses still
+yields a mutant) and whose instances are built deterministically through the SDK constructors.
 """
 from __future__ import annotations
 
@@ -200,7 +204,12 @@ def correspond(ctx: Ctx) -> None:
         "documents: SDK-written XML of invariant-satisfying instances of every concrete class of random meta-models "
         "(mm.random_mm, with escape-heavy patterns planted) and of the single-pattern models; mutants: one value breaking "
         "one inferred own-class constraint (length above max / below min, pattern, list size, item constraints), one "
-        "unknown / misplaced / duplicated / missing required element; distinct by document"
+        "unknown / misplaced / duplicated / missing required element; distinct by document. "
+        "Enumerated first (c14_models, seed-independent, DESIGNED constraints — not read back from the inference): list sizes and "
+        "string lengths over {0,1,2,9,10,11,99,100} in all min/max combinations x required/optional/list item, at min-1 and max+1; "
+        "values with 2-3 patterns from every source combination (class, ancestor, constrained primitive, its ancestors; "
+        "three-level chains declared descendant-first) with texts matching all patterns but one; SDK-written documents of "
+        "instances that break exactly one constraint"
     )
     ctx.assumptions += [
         "XSD validation semantics are those of the independent xmlschema library (XSD 1.0 and 1.1 modes)",
@@ -210,6 +219,8 @@ def correspond(ctx: Ctx) -> None:
 
 
 def oracle(ctx: Ctx) -> None:
+    c13.enumerated_stage(ctx, valid=False, mutants=True)
+    c13.close_families(ctx)
     c13.model_stage(ctx, ctx.n(22, 300), mutants=True)
 
 
@@ -222,8 +233,13 @@ def facet_stage(ctx: Ctx) -> None:
     lines: List[str] = []
     expected: List[Tuple[str, str, str]] = []
     n_models = 0
-    for m, stream in c13.models(ctx, ctx.n(10, 120)):
-        b = c13.build_model(ctx, m, with_sdk=False)
+    def built() -> Iterator[Tuple[Any, str]]:
+        for fam in c13.enumerated_families(ctx):
+            yield c13.built_family(ctx, fam), "enumerated-" + fam.name.split("-")[0]
+        for m, stream in c13.models(ctx, ctx.n(10, 120)):
+            yield c13.build_model(ctx, m, with_sdk=False), stream
+
+    for b, stream in built():
         if b.xsd_text is None:
             continue
         n_models += 1
@@ -260,6 +276,10 @@ def facet_stage(ctx: Ctx) -> None:
     for ln, (got, where, stream), want in zip(lines, expected, answers):
         ctx.count(ln + where, stream="facets/" + stream)
         ctx.traces_validated += 1
+        if " pattern * " in want + " ":
+            # two or more patterns: the model only says "one pattern facet (text by greenery), then the length facets"
+            got = re.sub(r" pattern (?:[0-9a-f.]+|-)(?= |$)", " pattern *", got)
+            ctx.hit("facets=intersected-patterns")
         ctx.hit("facets=" + ("restricted" if "pattern" in got or "Length" in got or got.startswith("occurs") and got != "occurs 0 unbounded" else "plain"))
         if got != want:
             ctx.disagree("facets/" + stream, {"request": ln, "where": where}, got, want)
